@@ -55,6 +55,7 @@ from TotalDepth.RP66V1 import IndexXML, ScanHTML
 from TotalDepth.RP66V1.core import LogicalFile
 from TotalDepth.LAS import LASToHTML
 from TotalDepth.LIS import LisToHtml
+from TotalDepth.util import bin_file_type
 
 # ---------------------------------------------------------------------------------------------------------------
 # Findings on the unchanged repository.  Each entry names exactly one input class; inputs in the class are still
@@ -95,6 +96,14 @@ KNOWN_FINDINGS = [
     'lis_html_non_ascii_byte_in_file_name',
 ]
 # ---------------------------------------------------------------------------------------------------------------
+
+# The repository's own example LIS files hold NUL and other control bytes in text records and table values: their HTML
+# is not well-formed for the reason given under 'non_xml_char_written_as_character_reference'.
+KNOWN_EXAMPLE_FILES = {
+    'DILLSON-1_WELL_LOGS_FILE-013.LIS': 'non_xml_char_written_as_character_reference',
+    'DILLSON-1_WELL_LOGS_FILE-037.LIS': 'non_xml_char_written_as_character_reference',
+    'DILLSON-1_WELL_LOGS_FILE-049.LIS': 'non_xml_char_written_as_character_reference',
+}
 
 XHTML_NS = 'http://www.w3.org/1999/xhtml'
 SVG_NS = 'http://www.w3.org/2000/svg'
@@ -592,13 +601,16 @@ VALUE_RCS = [dl.FSINGL, dl.FDOUBL, dl.SSHORT, dl.SNORM, dl.SLONG, dl.USHORT, dl.
              dl.ASCII, dl.ASCII, dl.ASCII, dl.DTIME, dl.ORIGIN, dl.OBNAME, dl.OBJREF, dl.STATUS, dl.UNITS]
 
 
-def unique_names(rnd, n, ctrl, high=False):
+def unique_names(rnd, n, ctrl, high=False, distinct_ident=False):
+    """n distinct object names (origin, copy, identifier).  distinct_ident: the identifiers alone are distinct (the
+    reader keys the channels of a frame by identifier only)."""
     names = []
     seen = set()
     while len(names) < n:
         nm = (rnd.choice([0, 1, 2, 130, 20000]), rnd.choice([0, 0, 1, 255]), dl_ident(rnd, ctrl, high))
-        if nm not in seen:
-            seen.add(nm)
+        key = nm[2] if distinct_ident else nm
+        if key not in seen:
+            seen.add(key)
             names.append(nm)
     return names
 
@@ -712,7 +724,7 @@ def plan_dlis(rnd, ctrl, high, empty_ok, single_ok):
         if rnd.random() < 0.8:
             # CHANNEL and FRAME
             n_ch = rnd.randint(1, 7)
-            ch_names = unique_names(rnd, n_ch, ctrl)      # (names of channels and frame types stay ASCII: they are keys of
+            ch_names = unique_names(rnd, n_ch, ctrl, distinct_ident=True)      # (names of channels and frame types stay ASCII: they are keys of
             #                                               the reader's own maps, which is not this property's business)
             channels = []
             for nm in ch_names:
@@ -1112,6 +1124,45 @@ def channel_with_at_most_one_value(lfs, frame_slice):
     return False
 
 
+def all_bytes(x):
+    """Every bytes object inside a plan (nested dicts, lists, tuples)."""
+    if isinstance(x, (bytes, bytearray)):
+        yield bytes(x)
+    elif isinstance(x, dict):
+        for k, v in x.items():
+            if k != 'data':             # frame data are numbers
+                yield from all_bytes(v)
+    elif isinstance(x, (list, tuple)):
+        for v in x:
+            yield from all_bytes(v)
+
+
+def plan_has_control_bytes(lfs, sul_ident):
+    """Some name, label, units or text value of the file holds a byte XML cannot represent (C0 except TAB, LF, CR)."""
+    return any(c < 0x20 and c not in (9, 10, 13) for b in list(all_bytes(lfs)) + [sul_ident] for c in b)
+
+
+def plan_has_high_byte_in_ascii_field(lfs):
+    """Some identifier, label, units string, set name, long name or description (the fields the writers decode as ASCII;
+    not the values of attributes, which are read as latin-1) holds a byte >= 0x80."""
+    fields = []
+    for lf in lfs:
+        for t in lf['tables'] + lf['late_tables']:
+            fields += [t['set_type'], t['set_name'] or b'']
+            for a in t['template']:
+                fields += [a['label'], a['units']]
+            for o in t['objects']:
+                fields.append(o['name'][2])
+                for a in o['attrs']:
+                    if isinstance(a, dict):
+                        fields.append(a.get('units', b''))
+        for c in lf.get('channels', []):
+            fields += [c['long_name'] or b'', c['units'] or b'']
+        for fr in lf['frames']:
+            fields.append(fr['description'] or b'')
+    return any(c >= 0x80 for b in fields for c in b)
+
+
 def parse_or_report(text, html, what, wit, out, has_ctrl, partial=False):
     """Parse a written document; returns the root or None.  A failure is bad unless it is the known character
     reference finding on an input that holds control characters."""
@@ -1142,6 +1193,9 @@ def case_dlis(rnd, out, tmpdir, wit):
     path_in = os.path.join(tmpdir, fname)
     with open(path_in, 'wb') as f:
         f.write(data)
+    # the flags say what the generator was allowed to do; the known-finding classes are decided on what the file holds
+    ctrl = plan_has_control_bytes(lfs, sul_ident)
+    high = plan_has_high_byte_in_ascii_field(lfs)
     wit.update(ctrl=ctrl, high=high, private=private, file_name=fname, file_bytes=len(data),
                logical_files=len(lfs), frames=[[fr['n'] for fr in lf['frames']] for lf in lfs])
     if len(data) <= 1200:
@@ -1350,6 +1404,9 @@ def lis68(v):
     return struct.pack('>L', word)
 
 
+LIS_STATS = dict(ctrl=False)
+
+
 def lis_bytes(rnd, n, bad, high, pad=b' '):
     """n bytes of hostile text (ASCII markup, optionally control bytes and bytes >= 0x80), padded."""
     pools = [list(b'<>&"\''), list(b'<>&"\''), list(b'ABCxyz019 -._'), list(b'ABCxyz019 -._')]
@@ -1358,7 +1415,10 @@ def lis_bytes(rnd, n, bad, high, pad=b' '):
     if high:
         pools.append([0x80, 0xb0, 0xe9, 0xff])
     k = rnd.randint(0, n)
-    return bytes(rnd.choice(rnd.choice(pools)) for _ in range(k)).ljust(n, pad)
+    b = bytes(rnd.choice(rnd.choice(pools)) for _ in range(k)).ljust(n, pad)
+    if any(c < 0x20 and c not in (9, 10, 13) for c in b):
+        LIS_STATS['ctrl'] = True
+    return b
 
 
 def make_lis_records(rnd, bad, high_name):
@@ -1399,9 +1459,16 @@ def make_lis_records(rnd, bad, high_name):
                     b += cb(0 if ci == 0 else 69, c, val, lis_bytes(rnd, 4, bad, True) if rnd.random() < 0.3 else b'    ')
             lrs.append(b)
         elif k < 0.8:
-            lrs.append(bytes([rnd.choice([232, 224, 225, 227, 234]), 0]) + lis_bytes(rnd, rnd.choice([1, 20, 80]), bad, True))
+            if rnd.random() < 0.6:
+                # EBCDIC text (code page 500: 4C < 50 & 6E > 7D ' 7F " C1.. A.., 40 space): no control characters in
+                # either of the two renderings of the record
+                body = bytes(rnd.choice([0x4C, 0x50, 0x6E, 0x7D, 0x7F, 0x40, 0xC1, 0xC2, 0xC9, 0x81, 0x99, 0xF0, 0xF9, 0x4B])
+                             for _ in range(rnd.choice([1, 20, 80])))
+            else:
+                body = lis_bytes(rnd, rnd.choice([1, 20, 80]), bad, True)
+            lrs.append(bytes([rnd.choice([232, 224, 225, 227, 234]), 0]) + body)
         else:
-            lrs.append(bytes([rnd.choice([85, 95, 47, 65]), 0]) + bytes(rnd.randrange(256) for _ in range(rnd.randint(1, 40))))
+            lrs.append(bytes([rnd.choice([85, 95, 47]), 0]) + bytes(rnd.randrange(256) for _ in range(rnd.randint(1, 40))))
     frames = 0
     if rnd.random() < 0.8:
         n_ch = rnd.randint(1, 4)
@@ -1431,7 +1498,9 @@ def make_lis_records(rnd, bad, high_name):
 def case_lis(rnd, out, tmpdir, wit):
     bad = rnd.random() < 0.2
     high_name = rnd.random() < 0.1      # bytes >= 0x80 in the file name field of the file header / trailer
+    LIS_STATS['ctrl'] = False
     lrs, frames = make_lis_records(rnd, bad, high_name)
+    bad = LIS_STATS['ctrl']             # from here on: some text field of the file really holds a control byte
     pr_len = rnd.choice([65535, 1024, 256, 64])
     data, starts = gen_lis.build(lrs, pr_len=pr_len, has_rec=rnd.random() < 0.3, file_num=rnd.choice([None, None, 3]),
                                  has_check=rnd.random() < 0.3, tif=rnd.random() < 0.3)
@@ -1444,29 +1513,51 @@ def case_lis(rnd, out, tmpdir, wit):
     if len(data) <= 1500:
         wit['file_hex'] = data.hex()
     keep_going = rnd.random() < 0.5
+    # text records are also shown "EBCDIC -> ASCII" (bytes decoded with code page 500): ordinary ASCII text then
+    # becomes control characters (b"." -> U+0006, b"'" -> U+001B)
+    ebcdic_ctrl = any(not representable(lr[2:].decode('cp500')) for lr in lrs if lr[0] in (224, 225, 227, 232, 234))
+    wit.update(keep_going=keep_going, text_record_is_control_characters_in_cp500=ebcdic_ctrl)
+    raised = None
+    summary = None
     try:
         summary = LisToHtml.processFile(path_in, path_out, keep_going)
     except Exception as err:      # noqa
-        if isinstance(err, UnicodeDecodeError) and high_name and any(b >= 0x80 for lr in lrs if lr[0] in (128, 129) for b in lr[2:12]) \
+        raised = err
+    if raised is None and summary is None and not os.path.exists(path_out + '.html') and \
+            not bin_file_type.is_lis_file_type(bin_file_type.binary_file_type_from_path(path_in)):
+        # processFile declined the file: its file type sniffer does not take it for LIS (not this property's business)
+        out.add_known('(lis file not recognised by bin_file_type, no HTML attempted)')
+        os.unlink(path_in)
+        return False
+    failed = raised is not None or summary is None       # with keepGoing the exception is logged and None returned
+    root = None
+    if os.path.exists(path_out + '.html'):
+        with open(path_out + '.html', 'rb') as f:
+            doc = f.read()
+        os.unlink(path_out + '.html')
+        if doc or not failed:
+            # whatever was written (even when the writer failed half way) has to be well-formed
+            try:
+                root = parse_xml(doc, html_entities=True)
+            except ET.ParseError as err:
+                if (bad or ebcdic_ctrl) and 'non_xml_char_written_as_character_reference' in KNOWN_FINDINGS \
+                        and 'invalid character number' in str(err):
+                    out.add_known('non_xml_char_written_as_character_reference')
+                else:
+                    out.add_bad(dict(what='LIS HTML%s not well-formed: %s' % (' (partial, writer failed)' if failed else '', err),
+                                     doc=short(doc, 500)))
+    elif not failed:
+        out.add_bad(dict(what='LisToHtml.processFile wrote no HTML (summary %s)' % summary))
+    os.unlink(path_in)
+    if failed:
+        if high_name and any(b >= 0x80 for lr in lrs if lr[0] in (128, 129) for b in lr[2:12]) \
+                and (raised is None or isinstance(raised, UnicodeDecodeError)) \
                 and 'lis_html_non_ascii_byte_in_file_name' in KNOWN_FINDINGS:
             out.add_known('lis_html_non_ascii_byte_in_file_name')
         else:
-            out.add_bad(dict(what='LisToHtml.processFile raised %r' % err))
+            out.add_bad(dict(what='LisToHtml.processFile failed: %r' % (raised if raised is not None else 'returned None')))
         return False
-    if not os.path.exists(path_out + '.html'):
-        out.add_bad(dict(what='LisToHtml.processFile wrote no HTML (summary %s)' % summary))
-        return False
-    with open(path_out + '.html', 'rb') as f:
-        doc = f.read()
-    os.unlink(path_in)
-    os.unlink(path_out + '.html')
-    try:
-        root = parse_xml(doc, html_entities=True)
-    except ET.ParseError as err:
-        if bad and 'non_xml_char_written_as_character_reference' in KNOWN_FINDINGS and 'invalid character number' in str(err):
-            out.add_known('non_xml_char_written_as_character_reference')
-            return False
-        out.add_bad(dict(what='LIS HTML not well-formed: %s' % err, doc=short(doc, 500)))
+    if root is None:
         return False
     q = '{%s}' % XHTML_NS
     errs = []
@@ -1592,6 +1683,124 @@ def case_svg(rnd, out, tmpdir, wit):
     return True
 
 
+# ================================================================================================================
+# The repository's example data (run once per invocation, not counted as cases)
+# ================================================================================================================
+def check_index_against_memory(root, logical_index, private, errs):
+    """The index XML of a real file against the in-memory index it was written from: one EFLR entry per table, one
+    FrameArray per frame type, run length entries expand to the frame numbers, positions and X values in memory."""
+    ulp = False
+    xlfs = list(root.find('LogicalFiles'))
+    if len(xlfs) != len(logical_index.logical_files):
+        errs.append('%d LogicalFile entries, %d logical files' % (len(xlfs), len(logical_index.logical_files)))
+        return ulp
+    vr = rle_expand(root.find('VisibleRecords'), lambda t: int(t, 16))
+    if vr != list(logical_index.visible_record_positions):
+        errs.append('VisibleRecords do not expand to the visible record positions in memory')
+    for li, (xlf, lf) in enumerate(zip(xlfs, logical_index.logical_files)):
+        xt = xlf.findall('EFLR')
+        if len(xt) != len(lf.eflrs):
+            errs.append('LogicalFile[%d]: %d EFLR entries, %d tables' % (li, len(xt), len(lf.eflrs)))
+            continue
+        for xe, pe in zip(xt, lf.eflrs):
+            if int(xe.get('lrsh_position'), 16) != pe.lrsh_position.lrsh_position or \
+                    int(xe.get('object_count')) != len(pe.eflr.objects) or \
+                    len(list(xe)) != (len(pe.eflr.objects) if private or pe.eflr.lr_type < 128 else 0) or \
+                    xe.get('set_type') != pe.eflr.set.type.decode('latin-1'):
+                errs.append('LogicalFile[%d]: EFLR entry %r does not match the table %s' % (li, dict(xe.attrib), pe.eflr))
+        xlp = xlf.findall('LogPass')
+        if not lf.has_log_pass:
+            if xlp:
+                errs.append('LogicalFile[%d]: LogPass entry without log pass' % li)
+            continue
+        xfa = list(xlp[0]) if len(xlp) == 1 else []
+        if len(xfa) != len(lf.log_pass.frame_arrays):
+            errs.append('LogicalFile[%d]: %d FrameArray entries, %d frame types' % (li, len(xfa), len(lf.log_pass.frame_arrays)))
+            continue
+        for xf, fa in zip(xfa, lf.log_pass.frame_arrays):
+            mem = list(lf.iflr_position_map[fa.ident])
+            ifl = xf.find('IFLR')
+            q = 'LogicalFile[%d]/FrameArray[%s]' % (li, xf.get('I'))
+            if len(list(xf.find('Channels'))) != len(fa.channels):
+                errs.append('%s: %d channels, %d in memory' % (q, len(list(xf.find('Channels'))), len(fa.channels)))
+            if rle_expand(ifl.find('FrameNumbers'), int) != [m.frame_number for m in mem]:
+                errs.append('%s: FrameNumbers differ from the in-memory index' % q)
+            if rle_expand(ifl.find('LRSH'), lambda t: int(t, 16)) != [m.logical_record_position.lrsh_position for m in mem]:
+                errs.append('%s: LRSH differ from the in-memory index' % q)
+            want = [m.x_axis for m in mem]
+            if want and isinstance(want[0], np.float32):
+                got = rle_expand(ifl.find('Xaxis'), np.float32, lambda d, s, i: np.float32(d + s * np.float32(i)))
+            else:
+                got = rle_expand(ifl.find('Xaxis'), float)
+            if len(got) != len(want) or any(float(a) != float(b) for a, b in zip(got, want)):
+                if len(got) == len(want) and all(abs(float(a) - float(b)) <= 4 * sys.float_info.epsilon * abs(float(b))
+                                                 for a, b in zip(got, want)):
+                    ulp = True
+                else:
+                    errs.append('%s: Xaxis runs do not expand to the X values in memory' % q)
+    return ulp
+
+
+def run_examples(out, tmpdir):
+    base = os.path.join(os.environ.get('PYVC_REPO', '/repo'), 'example_data')
+    n = 0
+
+    def parse(doc, html, what, name):
+        try:
+            return parse_xml(doc, html_entities=html)
+        except ET.ParseError as err:
+            k = KNOWN_EXAMPLE_FILES.get(name)
+            if k in KNOWN_FINDINGS and 'invalid character number' in str(err):
+                out.add_known(k)
+            else:
+                out.add_bad(dict(what='%s of example file %s not well-formed: %s' % (what, name, err)))
+            return None
+
+    for name in sorted(os.listdir(os.path.join(base, 'RP66V1', 'data'))):
+        path = os.path.join(base, 'RP66V1', 'data', name)
+        if os.path.getsize(path) > 200000:
+            continue
+        out.wit = dict(example=name)
+        n += 1
+        for private in (False, True):
+            fout = io.StringIO()
+            with LogicalFile.LogicalIndex(path) as logical_index:
+                IndexXML.write_logical_file_sequence_to_xml(logical_index, fout, private)
+                root = parse(fout.getvalue().encode('utf-8'), False, 'index XML', name)
+                if root is not None:
+                    errs = []
+                    try:
+                        if check_index_against_memory(root, logical_index, private, errs):
+                            if 'rp66v1_index_xaxis_run_absorbs_values_one_ulp_off' in KNOWN_FINDINGS:
+                                out.add_known('rp66v1_index_xaxis_run_absorbs_values_one_ulp_off')
+                            else:
+                                errs.append('Xaxis runs expand to values one ulp off the X values in memory')
+                    except (AssertionError, ValueError, AttributeError) as err:
+                        errs.append('run length entries: %r' % err)
+                    if errs:
+                        out.add_bad(dict(what='index XML of example file: ' + ' | '.join(errs[:3])))
+        fout = io.StringIO()
+        ScanHTML.html_scan_RP66V1_file_data_content(path, fout, False, Slice.Slice(), True)
+        parse(fout.getvalue().encode('utf-8'), True, 'RP66V1 HTML', name)
+    for name in sorted(os.listdir(os.path.join(base, 'LAS', 'data'))):
+        out.wit = dict(example=name)
+        n += 1
+        path_out = os.path.join(tmpdir, 'ex.html')
+        LASToHTML.las_file_to_html(os.path.join(base, 'LAS', 'data', name), path_out, 'LAS', False, False, Slice.Slice())
+        with open(path_out, 'rb') as f:
+            parse(f.read(), True, 'LAS HTML', name)
+        os.unlink(path_out)
+    for name in sorted(os.listdir(os.path.join(base, 'LIS', 'data'))):
+        out.wit = dict(example=name)
+        n += 1
+        path_out = os.path.join(tmpdir, 'exlis')
+        LisToHtml.processFile(os.path.join(base, 'LIS', 'data', name), path_out, False)
+        with open(path_out + '.html', 'rb') as f:
+            parse(f.read(), True, 'LIS HTML', name)
+        os.unlink(path_out + '.html')
+    return n
+
+
 FAMILIES = [('xml', 36, case_xml), ('dlis', 34, case_dlis), ('las', 10, case_las), ('lis', 10, case_lis), ('svg', 10, case_svg)]
 
 
@@ -1600,11 +1809,20 @@ def main():
     ap.add_argument('--seed', type=int, default=0)
     ap.add_argument('--cases', type=int, default=50)
     ap.add_argument('--only', type=int, default=None, help='run only this case number (to reproduce a witness)')
-    ap.add_argument('--family', default=None)
+    ap.add_argument('--family', default=None, help='run only the cases of one family: xml dlis las lis svg')
+    ap.add_argument('--no-examples', action='store_true', help="skip the repository's example files")
     args = ap.parse_args()
     out = Outcome()
     total = sum(w for _, w, _ in FAMILIES)
+    n_examples = 0
     with tempfile.TemporaryDirectory(prefix='c18_') as tmpdir:
+        if args.only is None and args.family is None and not args.no_examples:
+            try:
+                n_examples = run_examples(out, tmpdir)
+            except Exception as err:      # noqa
+                import traceback
+                traceback.print_exc()
+                out.add_bad(dict(what='example data: %r' % err))
         for i in range(args.cases):
             if args.only is not None and i != args.only:
                 continue
@@ -1631,6 +1849,7 @@ def main():
             f = out.family.setdefault(name, [0, 0])
             f[0] += 1
             f[1] += len(out.bad) - n_bad
+    print('example files checked (not counted as cases):', n_examples)
     print('families (cases, failures):', json.dumps(out.family))
     print('known findings met (not counted as bad):', json.dumps(out.known))
     for b in out.bad[5:]:
